@@ -47,6 +47,7 @@ struct Graph {
 
 fn gen_nodes(t: &mut Tape, n: usize) -> Vec<Node> {
     let mut nodes: Vec<Node> = vec![];
+    let mut weights: Vec<u64> = vec![];
     for i in 0..n {
         let pick = |t: &mut Tape, i: usize| if i == 0 { 0 } else { t.choose(i) };
         let node = if i < 2 {
@@ -102,6 +103,21 @@ fn gen_nodes(t: &mut Tape, n: usize) -> Vec<Node> {
                 _ => Node::Pair(i - 1, i - 2), // shared sub-values
             }
         };
+        // the reachability expansion of optimize / clone_data visits a shared value once per path to it (the recorded
+        // clone-limit finding): the number of paths below a node is kept polynomial by construction, so that neither the
+        // clone limit nor minutes of copying hide everything else (a chain of pairs each sharing its two predecessors
+        // has Fibonacci many)
+        let weight_of = |n: &Node, w: &Vec<u64>| -> u64 {
+            match n {
+                Node::Pair(a, b) | Node::Concat(a, b) => 1 + w[*a] + w[*b],
+                Node::KeyedPair(_, a) => 2 + w[*a],
+                Node::List(items) => 1 + items.iter().map(|i| w[*i]).sum::<u64>(),
+                _ => 1,
+            }
+        };
+        let w = weight_of(&node, &weights);
+        let node = if w > 400 { Node::Num(7) } else { node };
+        weights.push(weight_of(&node, &weights));
         nodes.push(node);
     }
     nodes
